@@ -27,6 +27,8 @@ def structural(o):
         return o
     d = {k: o.get(k) for k in STRUCT}
     d["members"] = sorted(n for _, n in o.get("roster", []))
+    # the key packages still in the member's store (a used one must be gone once the group is written)
+    d["kp_store_size"] = len(o.get("kp_store") or [])
     d["leaves"] = sorted(n["L"] for n in o.get("tree", []) if isinstance(n, dict) and "L" in n)
     return d
 
@@ -52,6 +54,23 @@ def base_script(rng, i):
         for m in g.in_group:
             if m != c:
                 g.ops.append({"op": "deliver", "to": m, "msg": cid})
+        g.ops.append({"op": "apply", "who": c})
+    # an external PSK proposed BY REFERENCE and committed by somebody else (the committer's filter
+    # reads the PSK store)
+    if len(g.in_group) >= 2:
+        for m in g.in_group:
+            g.ops.append({"op": "psk_insert", "who": m, "psk_id": "aa02", "value": "1112131415161718"})
+        p_, c = rng.shuffle(g.in_group)[:2]
+        g.ops.append({"op": "opts", "who": p_, "encrypt_controls": False})
+        g.ops.append({"op": "propose", "who": p_, "kind": "psk", "psk_id": "aa02", "id": "pp2"})
+        for m in g.in_group:
+            if m != p_:
+                g.ops.append({"op": "deliver", "to": m, "msg": "pp2"})
+        g.ops.append({"op": "opts", "who": c, "encrypt_controls": False})
+        g.ops.append({"op": "commit", "who": c, "id": "cp2"})
+        for m in g.in_group:
+            if m != c:
+                g.ops.append({"op": "deliver", "to": m, "msg": "cp2"})
         g.ops.append({"op": "apply", "who": c})
     for m in g.in_group:
         g.ops.append({"op": "save", "who": m})
